@@ -254,9 +254,11 @@ Qed.
    stack Vec; every code object starts with an opcode.  It holds for the machine of Vm::new, is kept
    by load_builtins, by the compiler on ANY datum, by every instruction, every builtin of the
    generated table and by Vm::eval (with finv /\ J of C01/C02), and it excludes the panic sites
-   X = 11 13 41 42 43 45 46 47 48 49 50 51 of Model/Vm.v / Heap.v ([xsiteb]).
+   X = 11 12 13 41 42 43 45 46 47 48 49 50 51 of Model/Vm.v / Heap.v ([xsiteb]); 12 = Heap::put_cell of a
+   procedure / continuation / macro object, excluded since the repairs of the findings eval-object-in-constant
+   and eval-object-as-define-name (below): every cell the compiler and the builtins store is a datum.
    NOT excluded (they need the stack discipline of compiled code, see docs/WP-c06d.md): 10 (only
-   through %ep), 14, 40, 44; 12 IS reachable (finding eval-object-in-constant, refuted below);
+   through %ep), 14, 40, 44;
    the sites of the library builtins (20-23, 30-33, 99, 150-153, 200-207) are outside X.
    [num_panics_ok] (NoPanicPkg.v) = the twelve value-level number functions of the table never answer
    a Panic whose site number lies in X (their sites are 20-23 and 200-207): C06_num_panics_ok. *)
@@ -264,7 +266,7 @@ From MW Require Import Model.Gc Proofs.SymtabProofs Proofs.FlatProofs Proofs.Fla
   Proofs.NoPanicBase Proofs.NoPanicPkg Proofs.NoPanicNum Proofs.NoPanicAll Proofs.NoPanicFinal.
 
 Theorem C06_excluded_sites_unfold : forall k, xsiteb k = true <->
-  (k = 11 \/ k = 13 \/ k = 41 \/ k = 42 \/ k = 43 \/ k = 45 \/ k = 46 \/ k = 47 \/ k = 48 \/ k = 49 \/ k = 50 \/ k = 51).
+  (k = 11 \/ k = 12 \/ k = 13 \/ k = 41 \/ k = 42 \/ k = 43 \/ k = 45 \/ k = 46 \/ k = 47 \/ k = 48 \/ k = 49 \/ k = 50 \/ k = 51).
 Proof. exact xsiteb_unfold. Qed.
 Print Assumptions C06_excluded_sites_unfold.
 
@@ -338,32 +340,58 @@ Print Assumptions C06_boot_invariant.
    session state, evaluation of ANY datum with ANY fuel never panics at a site of X *)
 Theorem C06_eval_no_vm_panic : forall prelude s0 s fuel e k,
   boot_with prelude = Some s0 -> evals s0 s -> eval Builtins.other_builtin fuel e s = RPanic k ->
-  k <> 11 /\ k <> 13 /\ k <> 41 /\ k <> 42 /\ k <> 43 /\ k <> 45 /\ k <> 46 /\ k <> 47 /\ k <> 48 /\ k <> 49 /\ k <> 50 /\ k <> 51.
+  k <> 11 /\ k <> 12 /\ k <> 13 /\ k <> 41 /\ k <> 42 /\ k <> 43 /\ k <> 45 /\ k <> 46 /\ k <> 47 /\ k <> 48 /\ k <> 49 /\ k <> 50 /\ k <> 51.
 Proof. exact eval_no_vm_panic_u. Qed.
 Print Assumptions C06_eval_no_vm_panic.
 
 Theorem C06_eval_no_vm_panic_booted : forall s0 s fuel e k,
   booted = Some s0 -> evals s0 s -> eval Builtins.other_builtin fuel e s = RPanic k ->
-  k <> 11 /\ k <> 13 /\ k <> 41 /\ k <> 42 /\ k <> 43 /\ k <> 45 /\ k <> 46 /\ k <> 47 /\ k <> 48 /\ k <> 49 /\ k <> 50 /\ k <> 51.
+  k <> 11 /\ k <> 12 /\ k <> 13 /\ k <> 41 /\ k <> 42 /\ k <> 43 /\ k <> 45 /\ k <> 46 /\ k <> 47 /\ k <> 48 /\ k <> 49 /\ k <> 50 /\ k <> 51.
 Proof. exact eval_no_vm_panic_booted. Qed.
 Print Assumptions C06_eval_no_vm_panic_booted.
 
-(* OPEN: no panic at all.  Needs the stack discipline of compiled code (sites 10 14 40 44), the repair of
-   finding eval-object-in-constant (site 12) and the numeric / allocation classes of C08, C14, C15. *)
+(* OPEN: no panic at all.  Needs the stack discipline of compiled code (sites 10 14 40 44) and the
+   numeric / allocation classes of C08, C14, C15. *)
 Definition C06_eval_no_panic_stmt : Prop :=
   forall s0 s fuel e k, booted = Some s0 -> evals s0 s -> eval Builtins.other_builtin fuel e s <> RPanic k.
 
-(* FINDING eval-object-in-constant: `eval` hands a datum that contains a procedure OBJECT to the compiler;
-   quote / vector literal / quasiquote call Heap::put_cell on it: panic!("unexpected lambda") (site 12).
-   [datum_has_object] (NoPanicFinal.v) is the decidable class of data put_cell rejects; the witness
-   [obj_witness_text] is (eval (cons 'quote (cons car '()))): its datum contains no object, the object is
-   made at run time.
-   [run_text t fuel] = parse t, evaluate its datum on boot_with [] (all builtins loaded). *)
-Theorem C06_refuted_eval_object_in_constant :
-  run_text obj_witness_text 200 = Some (RPanic 12) /\
+(* FINDING eval-object-in-constant, REPAIRED (repo commit "fix: eval rejects a procedure, continuation or
+   macro object inside quoted data"): `eval` hands a datum that contains a procedure OBJECT to the compiler;
+   quote / vector literal / quasiquote called Heap::put_cell on it: panic!("unexpected lambda") (site 12).
+   compile_quote and the tail of compile_quasiquote now test is_datum ([cell_is_datum], Model/Compile.v)
+   and answer an error.
+   [run_text t fuel] = parse t, evaluate its datum on boot_with [] (all builtins loaded);
+   [run_text_booted] = the same on [booted] (with the prelude); [is_error] = Vm::eval returned Err.
+   The former witness (eval (cons 'quote (cons car '()))) and the five shapes of the finding
+   ([obj_witness_texts]: quote / vector literal / quasiquote of a procedure, of a continuation, of a macro)
+   are errors now; the datum of the witness contains no object, the object is made at run time. *)
+Theorem C06_repaired_eval_object_in_constant :
+  is_error (run_text obj_witness_text 200) = true /\
+  forallb (fun t => is_error (run_text_booted t 2000)) obj_witness_texts = true /\
   match parse_text obj_witness_text with Ok (d, None) => datum_has_object d = false | _ => False end.
-Proof. exact refuted_eval_object_in_constant. Qed.
-Print Assumptions C06_refuted_eval_object_in_constant.
+Proof. exact repaired_eval_object_in_constant. Qed.
+Print Assumptions C06_repaired_eval_object_in_constant.
+
+(* the constant of ANY quote form (d ANY cell, objects included), in any state: the compiler cannot
+   panic at site 12 there; the only panic left is site 11, which is in X *)
+Theorem C06_quote_constant_panic : forall f l tail d s k,
+  compile_expression (S f) l tail (QuoteHeapProofs.quote_of d) s = RPanic k -> k = 11.
+Proof. exact quote_constant_panic. Qed.
+Print Assumptions C06_quote_constant_panic.
+
+(* FINDING eval-object-as-define-name, REPAIRED (repo commit "fix: define rejects a non-symbol name in the
+   (define (name . formals) body) form"): compile_define took the car of the head of
+   (define (name . formals) body) as the symbol without testing that it is a symbol and called
+   Heap::put_cell on it: a procedure object there was panic!("unexpected lambda") (site 12).
+   The former witness (eval (cons 'define (cons (cons car '()) '(1)))) and [defname_witness_texts]
+   (a procedure, a continuation, a macro as the name; (define (1 x) 1), which was silently accepted)
+   are errors now.  With both repairs site 12 is in X: C06_eval_no_vm_panic. *)
+Theorem C06_repaired_eval_object_as_define_name :
+  is_error (run_text defname_witness_text 200) = true /\
+  forallb (fun t => is_error (run_text_booted t 2000)) defname_witness_texts = true /\
+  match parse_text defname_witness_text with Ok (d, None) => datum_has_object d = false | _ => False end.
+Proof. exact repaired_eval_object_as_define_name. Qed.
+Print Assumptions C06_repaired_eval_object_as_define_name.
 
 (* non-vacuity: the invariant holds on the machine of Vm::new and on boot_with [] (all builtins loaded);
    a program with a variadic closure, apply, call/cc and a builtin passed as a value,
